@@ -657,6 +657,10 @@ def ancestors_of(node, root):
 def r5_application(rep, src):
     f = src.func('debian_support:patch_lines')
     rep.saw_func(f)
+    from ..core import Func, set_parents
+    f_node, _inl = normalize.inline_helpers(f)        # the replacement of one range may sit in a private helper
+    set_parents(f_node)
+    f = Func(f.module, f_node, f.qual, f.cls)
     loops = [s for s in f.node.body if isinstance(s, ast.For)]
     if len(loops) != 1:
         raise AnalysisError('%s: expected one loop' % f.site)
